@@ -125,11 +125,40 @@ class World:
         self.weak: List[Any] = []            # ref number -> weakref
         self.order: List[str] = []           # ids in file creation order (only to number the new objects of one iteration)
         self.known: Dict[str, str] = {}      # hash -> id
+        self.nstore = None
+        self.nheld: Dict[str, Any] = {}
 
     def close(self):
         self.strong = []
         self.stores = []
         shutil.rmtree(self.base, ignore_errors=True)
+
+    def spelling(self, k: int) -> str:
+        return self.dir
+
+    def neighbour(self, op):
+        """A store on ANOTHER directory of the same process that holds objects with the same identifiers and is used in between:
+        store instances are independent objects, nothing the neighbour does may show in the stores under test."""
+        try:
+            if self.nstore is None:
+                self.ndir = os.path.join(self.base, "neighbour")
+                os.makedirs(self.ndir)
+                self.nstore = self.lf.LocalFileObjectStore(self.ndir)
+            i = None
+            if op[0] == "new":
+                i = op[1]
+                if i not in self.nstore:
+                    self.nstore.add(make_obj(i, 999))
+            elif op[0] in ("get", "contains_id"):
+                i = op[2]
+            elif op[0] in ("add", "discard", "commit", "update", "setver", "ledit"):
+                o = self.obj(op[2] if op[0] in ("add", "discard") else op[1])
+                i = o.id if o is not None else None
+                del o
+            if i is not None and i in self.nstore:
+                self.nheld[i] = self.nstore.get_identifiable(i)          # kept alive, like an application would
+        except Exception:
+            pass                                                         # the neighbour's own fate is not observed
 
     def store(self, k: int):
         while len(self.stores) <= k:
@@ -161,6 +190,11 @@ class World:
             self.order.remove(i)
 
     def step(self, op: List[Any]) -> Any:
+        r = self._step(op)
+        self.neighbour(op)
+        return r
+
+    def _step(self, op: List[Any]) -> Any:
         k = op[0]
         try:
             if k == "new":
@@ -233,6 +267,9 @@ class World:
     def uri(self, i: str) -> str:
         return "file://localhost/{}/{}.json".format(self.dir, hash_of(i))
 
+    def uris(self, i: str) -> List[str]:
+        return ["file://localhost/{}/{}.json".format(self.spelling(k), hash_of(i)) for k in range(4)]
+
     def view(self, n: int) -> Any:
         disk = []
         for name in sorted(os.listdir(self.dir)):
@@ -249,7 +286,7 @@ class World:
         for r, o in enumerate(self.strong):
             if o is not None:
                 src = o.source
-                heap.append([r, o.id, ver_of(o), True if src == self.uri(o.id) else (False if src == "" else src)])
+                heap.append([r, o.id, ver_of(o), True if src in self.uris(o.id) else (False if src == "" else src)])
         caches = []
         for k in range(n):
             if k < len(self.stores):
